@@ -165,24 +165,41 @@ def verify(sc, m: Material, tok):
     from joserfc import jws, jwt, rfc7797
     kj = {"K1": m.k1, "K2": m.k2, "K3": m.k3}[sc["key"]]
     key = J.jkey(J.pub(kj))
+    # the form in which the verifier holds its key is not part of the key: the key itself, a set holding exactly it, a callable
+    import zlib
+    kform = zlib.crc32(repr(tok).encode()) % 4 if not any(e["u"] == "kid" for e in sc["es"]) else 0
+    if kform == 1:
+        from joserfc.jwk import KeySet
+        key = KeySet([J.fresh_jkey(J.pub(kj))])
+    elif kform == 2:
+        from joserfc.jwk import KeySet
+        _ks = KeySet([J.fresh_jkey(J.pub(kj))])
+        key = lambda obj: _ks          # noqa: E731
+    elif kform == 3:
+        _k = key
+        key = lambda obj: _k           # noqa: E731
     algs = [m.alg]
     if any(e["u"] == "alg_other" for e in sc["es"]):
         algs.append(OTHER[m.alg])
     try:
         ep, ser = sc["ep"], sc["ser"]
         if ep == "jwt":
-            t = jwt.decode(tok, key, algorithms=algs)
+            t = jwt.decode(J.F(tok), key, algorithms=algs)
             return "ok", R.jdump(t.claims), t.header, json.dumps(t.claims, sort_keys=True)
         mod = jws if ep == "jws" else rfc7797
         if ser == "compact":
             oob = sc.get("oob", "none")
             if oob != "none":
-                o = mod.deserialize_compact(tok, key, m.P[1 if oob == "P1" else 2], algorithms=algs)
+                o = mod.deserialize_compact(J.F(tok), key, m.P[1 if oob == "P1" else 2], algorithms=algs)
             else:
-                o = mod.deserialize_compact(tok, key, algorithms=algs)
+                o = mod.deserialize_compact(J.F(tok), key, algorithms=algs)
             return "ok", o.payload, o.protected, None
         o = mod.deserialize_json(tok, key, algorithms=algs)
         mem = o.members[0] if o.members else None
+        given = m.unprot(sc["es"][0]["u"]) or {} if sc["es"] else {}
+        added = sorted(set((mem.header or {}) if mem else {}) - set(given))
+        if added:               # members nobody signed and nobody sent
+            return "ok", o.payload, {"members added to the returned unprotected header": added}, None
         return "ok", o.payload, (mem.protected if mem else None), None
     except BaseException as e:  # noqa
         if isinstance(e, (KeyboardInterrupt, SystemExit)):
@@ -230,7 +247,7 @@ def run_batch(args):
                     good = res[1] == want
                 if not good:
                     out.append(("wrong-payload", si, v, alg, kind, repr(res[1])[:80]))
-                elif sc["ep"] != "jwt" and res[2] != hd:
+                elif res[2] != hd:
                     out.append(("wrong-header", si, v, alg, kind, repr(res[2])[:120]))
             elif exp_ok:
                 out.append(("drift", si, v, alg, kind, res[1]))
